@@ -352,5 +352,49 @@ theorem extensibleC_lawful : extensibleC.Lawful :=
       simp only at hn
       subst hn; rfl)
 
-end NeoModel.Wire
+section
+variable {α β : Type}
+theorem map_allocK (c : Codec α) (f : α → β) (g : β → α) : (map c f g).allocK = c.allocK := rfl
+theorem map_allocC (c : Codec α) (f : α → β) (g : β → α) : (map c f g).allocC = c.allocC := rfl
+theorem refine_allocK (c : Codec α) (p : α → Bool) : (refine c p).allocK = c.allocK := rfl
+theorem refine_allocC (c : Codec α) (p : α → Bool) : (refine c p).allocC = c.allocC := rfl
+theorem bind_allocK (c : Codec α) (f : α → Codec β) (K C : Nat) : (Codec.bind c f K C).allocK = Nat.max c.allocK K := rfl
+theorem bind_allocC (c : Codec α) (f : α → Codec β) (K C : Nat) : (Codec.bind c f K C).allocC = Nat.max c.allocC C := rfl
+theorem tagged_allocK (t : α → UInt8) (br : UInt8 → Codec α) (K C : Nat) : (tagged t br K C).allocK = K := rfl
+theorem tagged_allocC (t : α → UInt8) (br : UInt8 → Codec α) (K C : Nat) : (tagged t br K C).allocC = C := rfl
+theorem array_allocK (m s : Nat) (c : Codec α) : (array m s c).allocK = s + c.allocK := rfl
+theorem array_allocC (m s : Nat) (c : Codec α) : (array m s c).allocC = m * s + c.allocC := rfl
+theorem varBytes_allocK (m : Nat) : (varBytes m).allocK = 1 := rfl
+theorem varBytes_allocC (m : Nat) : (varBytes m).allocC = m := rfl
+theorem fixed_allocK (n : Nat) : (fixed n).allocK = 0 := rfl
+theorem fixed_allocC (n : Nat) : (fixed n).allocC = 0 := rfl
+theorem uintLE_allocK (n : Nat) : (uintLE n).allocK = 0 := rfl
+theorem uintLE_allocC (n : Nat) : (uintLE n).allocC = 0 := rfl
+theorem byte_allocK : byte.allocK = 0 := rfl
+theorem byte_allocC : byte.allocC = 0 := rfl
+theorem varUint_allocK : varUint.allocK = 0 := rfl
+theorem varUint_allocC : varUint.allocC = 0 := rfl
+theorem pubKeyC_allocK (cv : Curve) : (pubKeyC cv).allocK = 0 := rfl
+theorem pubKeyC_allocC (cv : Curve) : (pubKeyC cv).allocC = 0 := rfl
+theorem condC_allocK (cv : Curve) (d : Nat) : (condC cv d).allocK = condK d := by
+  cases d <;> simp [condC, fail, condK, tagged]
+theorem condC_allocC (cv : Curve) (d : Nat) : (condC cv d).allocC = condCap d := by
+  cases d <;> simp [condC, fail, condCap, tagged]
+end
 
+
+/-- the per-byte allocation constant of the transaction decoder, from the regenerated element sizes. -/
+theorem txC_allocK_le (cv : Curve) : (txC cv).allocK ≤ 256 := by
+  simp only [txC, txBodyC, signersC, signerC, ruleC, witnessC, txFixedC, attrC, signerK, txTailK,
+    map_allocK, refine_allocK, bind_allocK, seq_allocK, tagged_allocK, array_allocK, varBytes_allocK, fixed_allocK,
+    uintLE_allocK, byte_allocK, pubKeyC_allocK, condC_allocK, condK]
+  decide
+
+/-- the constant part of the allocation bound of the transaction decoder, from the regenerated caps. -/
+theorem txC_allocC_le (cv : Curve) : (txC cv).allocC ≤ 2 * WireLimits.maxArraySize := by
+  simp only [txC, txBodyC, signersC, signerC, ruleC, witnessC, txFixedC, attrC, signerCap, txTailCap, attrCap,
+    map_allocC, refine_allocC, bind_allocC, seq_allocC, tagged_allocC, array_allocC, varBytes_allocC, fixed_allocC,
+    uintLE_allocC, byte_allocC, pubKeyC_allocC, condC_allocC, condCap]
+  decide
+
+end NeoModel.Wire
